@@ -41,7 +41,8 @@ def _write(text, name="in.gff"):
 
 def _dbpath(name="out.db"):
     if hx.SYMBOLIC:
-        return "/fake/" + name
+        _SCRATCH[0] += 1
+        return "/fake/%d_%s" % (_SCRATCH[0], name)
     import os
     _SCRATCH[0] += 1
     return os.path.join(os.environ.get("VERIF_SCRATCH", "."), "%d_%s" % (_SCRATCH[0], name))
@@ -378,3 +379,256 @@ def reach_directives(k0: int, k1: int, k2: int, k3: int, checklines: int, from_s
 
 def diag_directives(k0, k1, k2, k3, checklines, from_string):
     return _check_directives([k0, k1, k2, k3][:NK], checklines, from_string, True)
+
+
+# =============================================================================================
+# C13: peeking never consumes; transform; input forms; inspect
+# =============================================================================================
+def _feat(i):
+    return feature_from_line("chr1\tsrc\tgene\t%d\t%d\t.\t+\t.\tID=g%d;Name=n%d" % (10 * i + 1, 10 * i + 5, i, i))
+
+
+SRC = hx.sel("VB_SRC", "gen")     # gen: one-shot generator | iter: iter(list) | list
+
+
+def _source(feats):
+    if SRC == "gen":
+        return (f for f in feats)
+    if SRC == "iter":
+        return iter(feats)
+    return list(feats)
+
+
+def _check_peek(n, checklines, given_dialect):
+    hx.tick()
+    feats = [_feat(i) for i in range(n)]
+    kw = dict(checklines=checklines)
+    if given_dialect:
+        kw["dialect"] = constants.dialect
+    it = gffutils.DataIterator(_source(feats), **kw)
+    got = list(it)
+    if len(got) != n:
+        return hx.msg("%d items iterated, %d supplied", len(got), n)
+    for a, b in zip(got, feats):
+        if a is not b:
+            return "items dropped, duplicated or reordered by the dialect peek"
+    return None
+
+
+def cond_peek(n: int, checklines: int, given_dialect: bool) -> bool:
+    """
+    pre: 0 <= n <= 4 and 0 <= checklines <= n + 2
+    post: _
+    """
+    return _check_peek(n, checklines, given_dialect) is None
+
+
+def reach_peek(n: int, checklines: int, given_dialect: bool) -> bool:
+    """
+    pre: 0 <= n <= 4 and 0 <= checklines <= n + 2
+    post: not _
+    """
+    return _check_peek(n, checklines, given_dialect) is None and n == 3 and checklines == 0 and not given_dialect
+
+
+def diag_peek(n, checklines, given_dialect):
+    return _check_peek(n, checklines, given_dialect)
+
+
+FALSY = (None, False, 0, "", [], ())
+
+
+def _check_transform(n, mask, kind, checklines, via_file):
+    """transform applied exactly once per feature; falsy return <=> skipped"""
+    hx.tick()
+    _reset()
+    feats = [_feat(i) for i in range(n)]
+    calls = []
+
+    def transform(f):
+        idx = int(f.attributes["ID"][0][1:])
+        calls.append(idx)
+        if mask[idx]:
+            return FALSY[kind]
+        f.attributes["seen"] = ["y"]
+        return f
+
+    if via_file:
+        text = "".join(str(f) + "\n" for f in feats)
+        it = gffutils.DataIterator(_write(text), checklines=checklines, transform=transform)
+    else:
+        it = gffutils.DataIterator(_source(feats), checklines=checklines, transform=transform)
+    got = list(it)
+    exp = [i for i in range(n) if not mask[i]]
+    if [int(f.attributes["ID"][0][1:]) for f in got] != exp:
+        return hx.msg("yielded %r, the transform kept %r", [f.attributes["ID"][0] for f in got], exp)
+    if any(list(f.attributes["seen"]) != ["y"] for f in got):
+        return "a yielded feature is not the transform's return value"
+    if sorted(calls) != list(range(n)):
+        return hx.msg("transform calls %r: not exactly once per feature", calls)
+    return None
+
+
+def _tr_ok(n, m0, m1, m2, kind, checklines):
+    return 0 <= n <= 3 and 0 <= kind < len(FALSY) and 0 <= checklines <= n + 1
+
+
+def cond_transform(n: int, m0: bool, m1: bool, m2: bool, kind: int, checklines: int, via_file: bool) -> bool:
+    """
+    pre: _tr_ok(n, m0, m1, m2, kind, checklines)
+    post: _
+    """
+    return _check_transform(n, [m0, m1, m2], kind, checklines, via_file) is None
+
+
+def reach_transform(n: int, m0: bool, m1: bool, m2: bool, kind: int, checklines: int, via_file: bool) -> bool:
+    """
+    pre: _tr_ok(n, m0, m1, m2, kind, checklines)
+    post: not _
+    """
+    return _check_transform(n, [m0, m1, m2], kind, checklines, via_file) is None and n == 3 and m1 and not m0 and kind == 2
+
+
+def diag_transform(n, m0, m1, m2, kind, checklines, via_file):
+    return _check_transform(n, [m0, m1, m2], kind, checklines, via_file)
+
+
+# ---- input forms ---------------------------------------------------------------------------------
+FKINDS = ("chr1\tsrc\tgene\t%d\t%d\t.\t+\t.\tID=g%d;Name=n", "chr1\tsrc\tmRNA\t%d\t%d\t.\t+\t.\tID=m%d;Parent=g0", "#comment %d %d %d")
+FORMS = ("path", "gz", "string", "list", "generator", "DataIterator", "FeatureDB")
+NF = hx.bound("VB_NF", 2)
+
+
+def _db_view(db):
+    rel = sorted((r[0], r[1], r[2]) for r in db.conn.execute("SELECT parent, child, level FROM relations ORDER BY parent, child, level"))
+    return [str(f) for f in db.all_features()], [f.id for f in db.all_features()], rel
+
+
+def _check_forms(kinds, checklines):
+    hx.tick()
+    _reset()
+    lines = [FKINDS[k] % (10 * i + 1, 10 * i + 5, i) for i, k in enumerate(kinds)]
+    flines = [l for l in lines if not l.startswith("#")]
+    text = "\n".join(lines) + "\n"
+    if not flines:
+        return None
+    ref_feats = [feature_from_line(l) for l in flines]
+    ref_db = None
+    for form in FORMS:
+        def data():
+            if form == "path":
+                return dict(data=_write(text, "f.gff"))
+            if form == "gz":
+                return dict(data=_write_gz(text))
+            if form == "string":
+                return dict(data=text, from_string=True)
+            if form == "list":
+                return dict(data=[feature_from_line(l) for l in flines])
+            if form == "generator":
+                return dict(data=(feature_from_line(l) for l in flines))
+            if form == "DataIterator":
+                return dict(data=gffutils.DataIterator(_write(text, "g.gff"), checklines=checklines))
+            base = gffutils.create_db(_write(text, "h.gff"), _dbpath("base.db"), checklines=checklines, keep_order=True)
+            return dict(data=base)
+        got = [str(f) for f in gffutils.DataIterator(checklines=checklines, **data())]
+        if got != flines:
+            return hx.msg("form %s iterates %r, the annotation is %r", form, got, flines)
+        db = gffutils.create_db(dbfn=_dbpath("out_%s.db" % form), checklines=checklines, keep_order=True, **data())
+        view = _db_view(db)
+        if view[0] != flines:
+            return hx.msg("database from form %s holds %r, the annotation is %r", form, view[0], flines)
+        if ref_db is None:
+            ref_db = view
+        elif view != ref_db:
+            return hx.msg("database from form %s differs from the one built from a path: %r vs %r", form, view, ref_db)
+    return None
+
+
+def _write_gz(text):
+    if hx.SYMBOLIC:
+        return _write(text, "f.gff.gz")
+    import gzip
+    import os
+    _SCRATCH[0] += 1
+    p = os.path.join(os.environ.get("VERIF_SCRATCH", "."), "%d_f.gff.gz" % _SCRATCH[0])
+    with gzip.open(p, "wt") as f:
+        f.write(text)
+    return p
+
+
+def _forms_ok(k0, k1, k2, checklines):
+    ks = [k0, k1, k2]
+    return all(0 <= k <= 2 for k in ks[:NF]) and all(k == 0 for k in ks[NF:]) and 0 <= checklines <= NF + 1 and (FCL < 0 or checklines == FCL)
+
+
+def cond_forms(k0: int, k1: int, k2: int, checklines: int) -> bool:
+    """
+    pre: _forms_ok(k0, k1, k2, checklines)
+    post: _
+    """
+    return _check_forms([k0, k1, k2][:NF], checklines) is None
+
+
+def reach_forms(k0: int, k1: int, k2: int, checklines: int) -> bool:
+    """
+    pre: _forms_ok(k0, k1, k2, checklines)
+    post: not _
+    """
+    return _check_forms([k0, k1, k2][:NF], checklines) is None and k0 == 0 and k1 == 1
+
+
+def diag_forms(k0, k1, k2, checklines):
+    return _check_forms([k0, k1, k2][:NF], checklines)
+
+
+# ---- inspect ------------------------------------------------------------------------------------------
+LOOK = hx.sel("VB_LOOK", "featuretype,chrom,attribute_keys,feature_count").split(",")
+
+
+def _check_inspect(kinds, limit, as_file):
+    hx.tick()
+    _reset()
+    lines = [FKINDS[k] % (10 * i + 1, 10 * i + 5, i) for i, k in enumerate(kinds)]
+    flines = [l for l in lines if not l.startswith("#")]
+    feats = [feature_from_line(l) for l in flines]
+    data = _write("\n".join(lines) + "\n", "i.gff") if as_file else (f for f in feats)
+    res = ginspect.inspect(data, look_for=list(LOOK), limit=limit, verbose=False)
+    seen = feats[:limit] if limit else feats
+    if res["feature_count"] != len(seen):
+        return hx.msg("feature_count %r, %d features were iterated", res["feature_count"], len(seen))
+    if "featuretype" in LOOK:
+        exp = {}
+        for f in seen:
+            exp[f.featuretype] = exp.get(f.featuretype, 0) + 1
+        if res["featuretype"] != exp:
+            return hx.msg("featuretype counts %r, expected %r", res["featuretype"], exp)
+    if "chrom" in LOOK and res["chrom"] != ({"chr1": len(seen)} if seen else {}):
+        return "chrom counts wrong"
+    if "attribute_keys" in LOOK:
+        exp = {}
+        for f in seen:
+            for k in f.attributes.keys():
+                exp[k] = exp.get(k, 0) + 1
+        if res["attribute_keys"] != exp:
+            return hx.msg("attribute_keys counts %r, expected %r", res["attribute_keys"], exp)
+    return None
+
+
+def cond_inspect(k0: int, k1: int, k2: int, limit: int, as_file: bool) -> bool:
+    """
+    pre: all(0 <= k <= 2 for k in (k0, k1, k2)) and 0 <= limit <= 4
+    post: _
+    """
+    return _check_inspect([k0, k1, k2], limit, as_file) is None
+
+
+def reach_inspect(k0: int, k1: int, k2: int, limit: int, as_file: bool) -> bool:
+    """
+    pre: all(0 <= k <= 2 for k in (k0, k1, k2)) and 0 <= limit <= 4
+    post: not _
+    """
+    return _check_inspect([k0, k1, k2], limit, as_file) is None and limit == 2 and k0 == 0 and k1 == 1 and k2 == 0
+
+
+def diag_inspect(k0, k1, k2, limit, as_file):
+    return _check_inspect([k0, k1, k2], limit, as_file)
